@@ -663,7 +663,7 @@ fill_yly_eastr(
 		}
 		if (!(yd = easter_get_yday(y))) {
 			continue;
-		} else if (!(yd += offs) || yd > 366) {
+		} else if (!(yd += offs) || yd > 365U + !(y % 4U)) {
 			/* huh? */
 			continue;
 		} else if (!(md = yd_to_md(y, yd)).m) {
